@@ -129,3 +129,89 @@ Arguments SValue {V}.
 Arguments SShort {V}.
 Arguments SFull {V}.
 Arguments SRef {V}.
+
+(* ---------------------------------------------------------------- the working trie of a handle and hasher.store *)
+Section Working.
+  Variable V : Type.
+
+  (* nodeFlag: dirty (not stored standalone: new, or embedded in its parent) or clean with the version it is stored at *)
+  Inductive flag := Dirty | Clean (v : ver).
+
+  (* a trie in memory: loaded/created nodes carry flags; WRef is a refNode (not loaded, or dropped from the cache) *)
+  Inductive wnode : Type :=
+  | WNil
+  | WValue (v : V)
+  | WShort (k : list nat) (c : wnode) (f : flag)
+  | WFull (cs : list wnode) (f : flag)
+  | WRef (v : ver).
+
+  (* node.go encode: a child is written inline when it is dirty, as a reference (path implied, version) otherwise *)
+  Fixpoint enc (n : wnode) : snode V :=
+    match n with
+    | WNil => SNil
+    | WValue v => SValue v
+    | WShort k c _ => SShort k (match c with
+                                | WShort _ _ (Clean v) | WFull _ (Clean v) | WRef v => SRef v
+                                | _ => enc c
+                                end)
+    | WFull cs _ => SFull (map (fun c => match c with
+                                         | WShort _ _ (Clean v) | WFull _ (Clean v) | WRef v => SRef v
+                                         | _ => enc c
+                                         end) cs)
+    | WRef v => SRef v
+    end.
+
+  Definition enc_child (c : wnode) : snode V :=
+    match c with
+    | WShort _ _ (Clean v) | WFull _ (Clean v) | WRef v => SRef v
+    | _ => enc c
+    end.
+
+  Definition is_dirty_inner (c : wnode) : bool :=
+    match c with WShort _ _ Dirty | WFull _ Dirty => true | _ => false end.
+
+  (* hasher.go store: dirty full/short children are stored first (children 0..15 of a full node, the child of a short
+     node); a full node is put when it is the root, has a hash (`big`: its consensus encoding is >= 32 bytes) or hashes are
+     skipped; a short node only when it is the root or hashes are skipped (otherwise it stays embedded, hence dirty).
+     The replacement of expired cached children by their references (cacheTTL) does not change what is written and is
+     left out.  Result: the node with its flags after the commit, and the (path, blob) entries put at newVer. *)
+  (* the loop over the children of a full node; rec is hasher.store itself *)
+  Definition wchildren_with (rec : list nat -> wnode -> wnode * list (list nat * snode V)) (path : list nat)
+    : list wnode -> nat -> list wnode * list (list nat * snode V) :=
+    fix go (l : list wnode) (i : nat) : list wnode * list (list nat * snode V) :=
+      match l with
+      | [] => ([], [])
+      | c :: t =>
+        let '(c', ec) := if is_dirty_inner c && (i <? 16)%nat then rec (path ++ [i]) c else (c, []) in
+        let '(t', et) := go t (S i) in
+        (c' :: t', ec ++ et)
+      end.
+
+  Fixpoint wstore (big : wnode -> bool) (skip : bool) (newv : ver) (path : list nat) (n : wnode) {struct n}
+    : wnode * list (list nat * snode V) :=
+    match n with
+    | WFull cs f =>
+      let r := wchildren_with (fun p c => wstore big skip newv p c) path cs 0%nat in
+      let n1 := WFull (fst r) f in
+      if is_root path || big n1 || skip
+      then (WFull (fst r) (Clean newv), (path, enc n1) :: snd r)
+      else (n1, snd r)
+    | WShort k c f =>
+      let '(c', ec) := if is_dirty_inner c then wstore big skip newv (path ++ k) c else (c, []) in
+      let n1 := WShort k c' f in
+      if is_root path || skip
+      then (WShort k c' (Clean newv), (path, enc n1) :: ec)
+      else (n1, ec)
+    | _ => (n, [])                                   (* Go: panic "unexpected node" *)
+    end.
+
+  (* iterator.go with minVer (Trie.Checkpoint): the standalone nodes reachable from a loaded root whose version is not
+     below min, as (path, version, blob as read from the store); children whose version is below min are skipped *)
+  Definition ver_lt (a b : ver) : bool := (fst a <? fst b) || ((fst a =? fst b) && (snd a <? snd b)).
+End Working.
+
+Arguments WNil {V}.
+Arguments WValue {V}.
+Arguments WShort {V}.
+Arguments WFull {V}.
+Arguments WRef {V}.
